@@ -89,6 +89,132 @@ def colliding_pairs(rng):
     return [(-1, -2), (k, k + M61), (-k - 3, -(k + 3) - M61), (k, k + 2 * M61), (1 << 64, (1 << 64) % M61), (k, k + 1)]
 
 
+# ---------------------------------------------------------------- annotations put on an expression that already carries them
+ANNO_KINDS = ["UA", "UR", "SIA", "Region", "Avoid", "Uninit"]
+
+
+def mk_anno(spec):
+    A = claripy.annotation
+    k = spec[0]
+    if k == "UA":
+        return UA(spec[1])
+    if k == "UR":
+        return UR(spec[1])
+    if k == "SIA":
+        return A.StridedIntervalAnnotation(spec[1], spec[2], spec[3])
+    if k == "Region":
+        return A.RegionAnnotation("r%d" % spec[1], spec[2])
+    if k == "Avoid":
+        return A.SimplificationAvoidanceAnnotation()
+    return A.UninitializedAnnotation()
+
+
+def rand_anno_spec(rng):
+    k = rng.choice(ANNO_KINDS)
+    if k in ("UA", "UR"):
+        return [k, rng.randrange(4)]
+    if k == "SIA":
+        lo = rng.randrange(4)
+        return [k, rng.choice([1, 2]), lo, lo + rng.choice([5, 10])]
+    if k == "Region":
+        return [k, rng.randrange(2), rng.randrange(3)]
+    return [k]
+
+
+REANNOTATE_BASES = ["x", "x+1", "const", "fps", "x>3", "If", "concat", "fp-add"]
+
+
+def reannotate_base(kind):
+    x = claripy.BVS("c06_x", 32, explicit_name=True)
+    f = claripy.FPS("c06_f", claripy.FSORT_FLOAT, explicit_name=True)
+    return {"x": lambda: x, "x+1": lambda: x + 1, "const": lambda: claripy.BVV(5, 32), "fps": lambda: f, "x>3": lambda: x > 3,
+            "If": lambda: claripy.If(x > 3, x, x + 2), "concat": lambda: claripy.Concat(x, x[7:0]),
+            "fp-add": lambda: f + claripy.FPV(1.5, claripy.FSORT_FLOAT)}[kind]()
+
+
+def reannotate_spec(rng):
+    """a base, three annotations a / again / b where `again` is `a` itself or an EQUAL second object, and sequences of the public
+    annotation methods that (also) put an annotation on a node that already carries it"""
+    sa = rand_anno_spec(rng)
+    sb = rand_anno_spec(rng)
+    while sb == sa:
+        sb = rand_anno_spec(rng)
+    fixed = [[["annotate", [0]]], [["annotate", [1]]], [["annotate", [0, 2]]], [["annotate", [0]], ["annotate", [2]]],
+             [["annotate", [0, 2]], ["remove_annotation", [2]]], [["replace_annotations", [0]]],
+             [["annotate", [0]], ["annotate", [1]]], [["annotate", [0, 1]]], [["annotate", [0]], ["append_annotation", [1]]],
+             [["annotate", [0]], ["insert_annotation", [1]]], [["annotate", [0, 2]], ["annotate", [1]]], [["annotate", [0, 2, 1]]],
+             [["annotate", [0, 2]], ["annotate", [1]], ["remove_annotation", [2]]], [["annotate", [2]], ["insert_annotations", [0, 1]]],
+             [["annotate", [1]], ["append_annotations", [0]]], [["replace_annotations", [0, 1]]], [["annotate", [0]], ["replace_annotations", [1, 0]]]]
+    methods = ["annotate", "append_annotation", "insert_annotation", "append_annotations", "insert_annotations", "remove_annotation", "replace_annotations"]
+    rand = []
+    for _ in range(rng.choice([2, 4, 6])):
+        seq = []
+        for _ in range(rng.choice([1, 2, 3, 4])):
+            mth = rng.choice(methods)
+            n = 1 if mth in ("append_annotation", "insert_annotation", "remove_annotation") else rng.choice([1, 1, 2, 3])
+            seq.append([mth, [rng.randrange(3) for _ in range(n)]])
+        rand.append(seq)
+    # an EQUAL second object only for classes with value equality (a RegionAnnotation / SimplificationAvoidanceAnnotation is only equal to itself)
+    again = rng.choice(["same-object", "equal-object"]) if sa[0] in ("UA", "UR", "SIA", "Uninit") else "same-object"
+    return {"base": rng.choice(REANNOTATE_BASES), "a": sa, "b": sb, "again": again, "sequences": fixed + rand}
+
+
+def reannotate_check(spec):
+    """build every sequence on the base, then parents over the results, keep all alive: same deep structure <=> same object, and every
+    annotation requested last is carried.  -> list of (kind, text)"""
+    base = reannotate_base(spec["base"])
+    a, b = mk_anno(spec["a"]), mk_anno(spec["b"])
+    again = a if spec["again"] == "same-object" else mk_anno(spec["a"])
+    annos = [a, again, b]
+    alive, memo, pool, out = [base, annos], {}, {}, []
+
+    def see(node, how):
+        alive.append(node)
+        k = skey(node, memo)
+        other = pool.setdefault(k, (node, how))
+        if other[0] is not node:
+            out.append(("two-objects-one-structure", "%r annotated %r built by %s and %r annotated %r built by %s have the same operation, arguments, width and annotations "
+                        "but are two live objects (hashes %#x, %#x)" % (node, node.annotations, how, other[0], other[0].annotations, other[1], node.hash() % (1 << 64), other[0].hash() % (1 << 64))))
+    see(base, "base")
+    results = []
+    for seq in spec["sequences"]:
+        node, how = base, "base"
+        for mth, idx in seq:
+            args = [annos[i] for i in idx]
+            try:
+                if mth in ("annotate",):
+                    node = node.annotate(*args)
+                elif mth in ("append_annotation", "insert_annotation", "remove_annotation"):
+                    node = getattr(node, mth)(args[0])
+                else:
+                    node = getattr(node, mth)(tuple(args))
+            except claripy.errors.ClaripyError:
+                break
+            how += ".%s(%s)" % (mth, ", ".join("abc"[0] + ("'" if i == 1 and spec["again"] != "same-object" else "") if i < 2 else "b" for i in idx))
+            if mth != "remove_annotation" and not all(any(anno_desc(c) == anno_desc(q) for c in node.annotations) for q in args):
+                out.append(("requested-annotation-not-carried", "%s carries %r" % (how, node.annotations)))
+            see(node, how)
+        results.append((node, how))
+    for node, how in results:
+        try:
+            if isinstance(node, claripy.ast.BV):
+                ps = [(node + 1, "+1"), (claripy.Concat(node, node), "Concat(v, v)"), (~node, "~v"), (claripy.If(claripy.BoolS("c06_c", explicit_name=True), node, base), "If(c, v, base)")]
+            elif isinstance(node, claripy.ast.Bool):
+                ps = [(claripy.Not(node), "Not(v)"), (claripy.And(node, claripy.BoolS("c06_c", explicit_name=True)), "And(v, c)")]
+            else:
+                ps = [(claripy.fpAbs(node), "fpAbs(v)"), (claripy.fpIsNaN(node), "fpIsNaN(v)")]
+        except claripy.errors.ClaripyError:
+            continue
+        for p_, ph in ps:
+            see(p_, "%s over v = %s" % (ph, how))
+    by_hash = {}
+    for k, (node, how) in pool.items():
+        o = by_hash.setdefault(node._hash, (k, node, how))
+        if o[0] != k:
+            out.append(("hash-shared-by-different-structures", "%r (%s) and %r (%s) share hash %d" % (o[1], o[2], node, how, node._hash)))
+    return out
+
+
 def run(ctx):
     ctx.cov["trusted_base"] += [
         "blake2b-64 does not collide on the serialisations seen (a hypothesis: the table theorems are stated for an arbitrary key function, "
@@ -309,6 +435,27 @@ def run(ctx):
             elif other is not got:
                 ctx.violation("C06/identity/two-objects-one-structure", "two live objects for %r annotated %r" % (got, got.annotations),
                               {"base": repr(base), "how": how, "requested": repr(want)})
+    # ---- (b2r) an annotation put on an expression that ALREADY carries it (the same object, or an equal second object), through
+    # annotate / append_annotation(s) / insert_annotation(s) / replace_annotations, next to the plain routes; parents over the results
+    import random
+    arng = random.Random("C06-re-annotation:%d" % ctx.seed)      # own stream: the older stages keep theirs
+    nre = 0
+    for rep in range(ctx.pick(150, 2500) * (3 if ctx.broken else 1)):
+        spec = reannotate_spec(arng)
+        ctx.count(); nre += 1
+        probs = reannotate_check(spec)
+        if probs:
+            kind, what = probs[0]
+            # shrink: one sequence at a time next to the plain ones
+            small = spec
+            for i_ in range(len(spec["sequences"]) - 1, -1, -1):
+                trial = dict(small, sequences=small["sequences"][:i_] + small["sequences"][i_ + 1:])
+                pr2 = reannotate_check(trial)
+                if pr2 and pr2[0][0] == kind:
+                    small, what = trial, pr2[0][1]
+            ctx.violation("C06/re-annotate/%s/%s/%s" % (kind, spec["again"], spec["a"][0]), what, {"reannotate": small})
+        elif rep % 3 == 0:
+            ctx.distinct(("reannotate", repr(spec["a"]), repr(spec["b"]), spec["base"], spec["again"]))
     # ---- (b3) expressions arriving from another process (other string-hash seed), before and after the native build
     ncross = 0
     for rep in range(ctx.pick(2, 10) * (3 if ctx.broken else 1)):
@@ -379,7 +526,7 @@ def run(ctx):
             ctx.tie_broken("corr:_ast_serialize", "%s: model %s real %s" % (l[:300], o[:200], w[:200])); break
         agree += 1
     ctx.cov["traces_validated_against_impl"] = agree
-    ctx.cov["input_distribution"] = {"integers": len(ints), "nodes_serialised": len(ser_lines), "distinct_structures": len(pool), "multi_annotation_bases": nperm, "leaf_constructor_calls": nleaf, "cross_process_items": ncross, "templates": dict(dist)}
+    ctx.cov["input_distribution"] = {"integers": len(ints), "nodes_serialised": len(ser_lines), "distinct_structures": len(pool), "multi_annotation_bases": nperm, "re_annotation_cases": nre, "leaf_constructor_calls": nleaf, "cross_process_items": ncross, "templates": dict(dist)}
     if ser_lines:
         ctx.sample({"request": ser_lines[-1][:200], "bytes": ser_want[-1][:120]})
     del keep_alive
@@ -388,6 +535,13 @@ def run(ctx):
 
 def replay(ctx, obj):
     r = obj["replay"]
+    if "reannotate" in r:
+        probs = reannotate_check(r["reannotate"])
+        for kind, what in probs[:3]:
+            print(kind + ":", what)
+        if probs:
+            print("VIOLATION property=C06 replay=(given)"); return 1
+        print("same structure <=> same object over these annotated nodes on the current tree"); return 0
     if "values" in r:
         v1, v2 = r["values"]
         mk = {"UA": UA, "StridedIntervalAnnotation": lambda v: claripy.annotation.StridedIntervalAnnotation(1, v, 5 if v < 5 else v + 5),
